@@ -25,3 +25,7 @@ let x_inst () =
     x_opts = o; x_safe_lists = sl; x_fix = fx }
 let () = register "klaec" (fun () -> print_milp (encode_klae_cycles (x_inst ())))
 let () = register "kmpec" (fun () -> print_milp (encode_kmpe_cycles (x_inst ())))
+let b2s b = if b then "1" else "0"
+let xprem () = let wi = werr_walk (x_inst ()) in print_endline (b2s (wf_stg_b wi.w_graph) ^ " " ^ b2s (winputs_ok_b wi))
+let () = register "klaecpremises" xprem
+let () = register "kmpecpremises" xprem
